@@ -232,12 +232,9 @@ def model_op(op, pre):
         return ["append", {"number": s["number"], "imp": imp, "vol": ci.frac(s.get("vol")), "u": s.get("u"), "ntr": False,
                            "lat": s.get("lat"), "fill": s.get("fill"), "fill_complex": False, "fill_multi": False, "set_in": [False] * 5}]
     if name == "imp":
-        # the parsed tree of `imp:n,p=1` is ONE object under both particles (C03's finding): which particles share the
-        # edited particle's tree is read off the live objects, the model sets them all
-        ents = pre["cells"][op[1]]["imp_entries"] if op[1] < len(pre["cells"]) else []
-        mine = [e for e in ents if e["p"] == op[2]]
-        ps = [op[2]] + ([e["p"] for e in ents if e["tree"] == mine[0]["tree"] and e["p"] != op[2]] if mine else [])
-        return ["imp", op[1], [_pc(x) for x in ps], ci.frac(op[3])]
+        # a particle that shares one parsed tree (imp:n,p=1) gets its own copy before its value changes (C03's repair):
+        # only the edited particle changes
+        return ["imp", op[1], [_pc(op[2])], ci.frac(op[3])]
     if name == "imp_all":
         return ["imp_all", op[1], ci.frac(op[2])]
     if name == "vol":
@@ -526,7 +523,6 @@ def run(chk):
         "syntax trees, paddings, number formatting and shortcut re-compression are not modelled (C05/C08/C10): model and real file are compared as cards (class, particle, value / expanded vector, trailing jumps stripped, isclose 1e-9)",
         "a datum is a value the cell HOLDS: for a particle of MODE that `particle in cell.importance` denies, the getter's 0.0 is a default, not a datum",
         "mutation of the classifier particle sets by formatting is not modelled (it only decides whether particles share a card)",
-        "the particles that share one parsed importance tree (imp:n,p=1; C03's finding) are read off the live objects by the harness; the model's setImp sets them all",
         "FILL with a transform / a matrix in the data block and an IMP vector with a hole are deliberate refusals (ValueError / ParticleTypeNotInCell), expected by model and oracle",
     ]
     chk.trusted_base = [
